@@ -141,17 +141,31 @@ def decimalPointOrEmpty (precision : Nat) (alt : Bool) : List Nat :=
 
 def eChar (upper : Bool) : Nat := if upper then 69 else 101
 
+/-- `MAX_FLOAT_DIGITS`: a finite double has at most 1074 digits after the point and fewer than 1100
+    significant digits, so `format!` is never asked for more (its precision argument is a `u16`; a
+    larger one panics).  The digits beyond are the `zeros` string.  (`Clamp.lean` proves that this is
+    exactly what an unbounded `{:.N}` / `{:.Ne}` would print: `fixedClamped_eq`, `toExpL_clamp`.) -/
+def maxFloatDigits : Nat := 1100
+
+/-- `format!("{magnitude:.digits$}{zeros}")` of `format_fixed`, `digits = precision.min(MAX_FLOAT_DIGITS)`,
+    `zeros = "0".repeat(precision - digits)` -/
+def fixedClamped (bits precision : Nat) : List Nat :=
+  let digits := min precision maxFloatDigits
+  toFixedL bits digits ++ List.replicate (precision - digits) 48
+
 /-- `format_fixed` -/
 def formatFixed (precision bits : Nat) (upper alt : Bool) : List Nat :=
-  if isFinite bits then toFixedL bits precision ++ decimalPointOrEmpty precision alt
+  if isFinite bits then fixedClamped bits precision ++ decimalPointOrEmpty precision alt
   else if isNan bits then formatNan upper
   else formatInf upper
 
-/-- `format_exponent` -/
+/-- `format_exponent`: `{magnitude:.digits$e}` split at the `e`, then `{base}{zeros}{point}{e}{exponent:+#03}` -/
 def formatExponent (precision bits : Nat) (upper alt : Bool) : List Nat :=
   if isFinite bits then
-    let (base, exponent) := toExpL bits precision
-    base ++ decimalPointOrEmpty precision alt ++ [eChar upper] ++ expSuffix exponent
+    let digits := min precision maxFloatDigits
+    let zeros := List.replicate (precision - digits) 48
+    let (base, exponent) := toExpL bits digits
+    base ++ zeros ++ decimalPointOrEmpty precision alt ++ [eChar upper] ++ expSuffix exponent
   else if isNan bits then formatNan upper
   else formatInf upper
 
@@ -166,19 +180,22 @@ def removeTrailingDecimalPoint (s : List Nat) : List Nat :=
 def maybeRemoveTrailingRedundantChars (s : List Nat) (alt : Bool) : List Nat :=
   if !alt ∧ s.contains 46 then removeTrailingDecimalPoint (removeTrailingZeros s) else s
 
-/-- body of `format_general` after its first line.  `format!("{:.*}", precision + 1, base)` on the
-    *string* `base` truncates it to `precision + 1` characters (which cuts a digit when `base`
-    carries a `-`). -/
+/-- body of `format_general` after its first line (`precision ≥ 1` here).
+    `format!("{:.*}{zeros}", digits + 2, base)` truncates the *string* `base` to `digits + 2`
+    characters — all of it, unless `base` carries a `-`, when a digit is cut (both callers pass
+    `abs`) — and the fixed branch calls `format_fixed(precision, magnitude, case, false)`. -/
 def formatGeneralCore (precision bits : Nat) (upper alt alwaysShowsFract : Bool) : List Nat :=
   if isFinite bits then
-    let (base, exponent) := toExpL bits (precision - 1)
+    let digits := min (precision - 1) maxFloatDigits
+    let zeros := List.replicate (precision - 1 - digits) 48
+    let (base, exponent) := toExpL bits digits
     if exponent < -4 ∨ exponent + (if alwaysShowsFract then 1 else 0) ≥ (precision : Int) then
-      let magnitude := base.take (precision + 1)
+      let magnitude := base.take (digits + 2) ++ zeros
       let base := maybeRemoveTrailingRedundantChars magnitude alt
       base ++ decimalPointOrEmpty (precision - 1) alt ++ [eChar upper] ++ expSuffix exponent
     else
       let precision' := ((precision : Int) - 1 - exponent).toNat
-      let magnitude := toFixedL bits precision'
+      let magnitude := formatFixed precision' bits upper false
       let base := maybeRemoveTrailingRedundantChars magnitude alt
       base ++ decimalPointOrEmpty precision' alt
   else if isNan bits then formatNan upper
